@@ -136,6 +136,8 @@ def apply_tiff_predictor(
     if bitspercomponent != 8:
         error_msg = f"Unsupported `bitspercomponent': {bitspercomponent}"
         raise PDFValueError(error_msg)
+    if colors < 1 or columns < 1:
+        raise PDFValueError(f"Unsupported predictor geometry: {colors} x {columns}")
     bpp = colors * (bitspercomponent // 8)
     nbytes = columns * bpp
     buf: List[int] = []
@@ -167,6 +169,8 @@ def apply_png_predictor(
         msg = "Unsupported `bitspercomponent': %d" % bitspercomponent
         raise PDFValueError(msg)
 
+    if colors < 1 or columns < 1:
+        raise PDFValueError(f"Unsupported predictor geometry: {colors} x {columns}")
     # number of bytes per scanline and per complete pixel, both rounded up
     nbytes = (colors * columns * bitspercomponent + 7) // 8
     bpp = max(1, colors * bitspercomponent // 8)
